@@ -16,6 +16,7 @@ report list and parsing continues.
 import PybtexModel.Gen.BibTables
 import PybtexModel.Model.Names
 import PybtexModel.Model.CIMap
+import PybtexModel.Model.UniCase
 
 namespace Pybtex.Bib
 
@@ -75,6 +76,10 @@ structure St where
   curValue : List Str := []
   /-- `Parser(person_fields=…)` (default `Person.valid_roles`; the BibTeX engine passes `[]`) -/
   roles : List Str := Gen.personRoles
+  /-- for every problem of `errs`, in the same order: the unread text at the moment the problem was
+  handed to `handle_error`.  For a `PybtexSyntaxError` this is the `pos` of its
+  `error_context_info` (`pos = len(text) - len(unread)`); nothing in the reader ever looks at it. -/
+  errAt : List Str := []
 
 inductive Abort where
   | syn (e : Err)        -- a PybtexSyntaxError on its way to the nearest handler
@@ -86,9 +91,13 @@ inductive Res (α : Type) where
   | ok (a : α) (s : St)
   | fail (e : Abort) (s : St)
 
+/-- the problem `e` is recorded (continue mode), together with the unread text at this moment -/
+def St.report (s : St) (e : Err) : St :=
+  { s with errs := s.errs ++ [e], errAt := s.errAt ++ [s.rest] }
+
 /-- `handle_error` = `report_error`. -/
 def handleError (s : St) (e : Err) : Res Unit :=
-  if s.strict then .fail (.raised e) s else .ok () { s with errs := s.errs ++ [e] }
+  if s.strict then .fail (.raised e) s else .ok () (s.report e)
 
 /-! ### scanner -/
 
@@ -351,7 +360,14 @@ def normalizeWs (s : Str) : Str := collapseWs false (strip s)
 def isPersonFieldOf (roles : List Str) (name : Str) : Bool := (roles.map lower).contains (lower name)
 def isPersonField (name : Str) : Bool := isPersonFieldOf Gen.personRoles name
 
-def hasEntry (db : Db) (key : Str) : Bool := db.entries.any fun e => lower e.key = lower key
+/-- How entry keys are compared: `BibliographyData.entries` is an `OrderedCaseInsensitiveDict`, which
+folds keys with `str.lower()` — the Unicode mapping (`Model/UniCase.lean`: character by character
+from the interpreter's table; outside its domain `lowerDomain`: U+0130 and U+03A3).  Keys are the
+only identifiers of a `.bib` file that may contain non-ASCII letters (entry types, field names and
+macro names are NAMEs, i.e. ASCII, and on ASCII `lowerU` = `lower`: `lowerUC_ascii`). -/
+def keyFold (k : Str) : Str := lowerU k
+
+def hasEntry (db : Db) (key : Str) : Bool := db.entries.any fun e => keyFold e.key = keyFold key
 
 def canonicalKey (db : Db) (key : Str) : Str :=
   match db.citations.canonical key with
